@@ -165,6 +165,9 @@ func cmdCheck(args []string) int {
 	}
 	deadline := start.Add(time.Duration(bud) * time.Second)
 
+	if *only == "" {
+		os.RemoveAll(filepath.Join(verifDir(), "replays", spec.Property))
+	}
 	known := loadKnown()
 	var all []*Results
 	inconclusive := []string{}
